@@ -75,6 +75,12 @@ func Diff(e Expr, name string) (Expr, bool) {
 				return Mul(PowInt(FnE("cosh", x), -2), dE(x))
 			case "sqrt":
 				return Mul(Mul(Num(big.NewRat(1, 2)), PowInt(atomExpr(a), -1)), dE(x))
+			case "clamp":
+				dx := dE(x)
+				if dx.IsZero() {
+					return Expr{}
+				}
+				return Mul(Mul(Ind(RealGT(x, a.Args[1])), Ind(RealLT(x, a.Args[2]))), dx)
 			case "max", "min":
 				y := a.Args[1]
 				dx, dy := dE(x), dE(y)
